@@ -12,6 +12,67 @@ pub fn dkz(signal: &SignalBeam, pump: &PumpBeam, cs: &CrystalSetup, pp: &Periodi
   raw_vec(delta_k(signal.frequency(), idler.frequency(), signal, &idler, pump, cs, pp)).z
 }
 
+/// the same quantity recomputed from first principles for the predicates: the matching optimum idler's angles, then every
+/// wave vector as n ω / c along its direction with n from `index_along` and the polarization of the harness's own PM
+/// table, minus 2π/Λ with the poling's sign (so that state kept inside `delta_k` cannot hide from the predicate)
+pub fn dkz_indep(signal: &SignalBeam, pump: &PumpBeam, cs: &CrystalSetup, pp: &PeriodicPoling) -> f64 {
+  let idler = IdlerBeam::try_new_optimum(signal, pump, cs, pp).unwrap();
+  let (pol_p, pol_s, pol_i) = pol_of(cs.pm_type);
+  let kp = indep_k(cs, 0., 0., pol_p, w_of(pump));
+  let ks = indep_k(cs, th_of(signal), ph_of(signal), pol_s, w_of(signal));
+  let ki = indep_k(cs, th_of(&idler), ph_of(&idler), pol_i, w_of(&idler));
+  let kl = match pp {
+    PeriodicPoling::Off => 0.0,
+    PeriodicPoling::On { period, sign, .. } => TAU / (*(*period / M) * if *sign == Sign::NEGATIVE { -1.0 } else { 1.0 }),
+  };
+  kp.z - ks.z - ki.z - kl
+}
+
+// ---- history independence (C04): a sample of optimiser calls is repeated at the end of the run in another order
+struct AutoCall {
+  cs: CrystalSetup,
+  signal: SignalBeam,
+  pump: PumpBeam,
+  period: Option<Option<u64>>, // bits of Ok(period) / None for Err
+  theta: Option<u64>,
+}
+thread_local! {
+  static AUTO_CALLS: std::cell::RefCell<(usize, Vec<AutoCall>)> = const { std::cell::RefCell::new((0, Vec::new())) };
+}
+fn record_auto(stride: usize, cs: &CrystalSetup, signal: &SignalBeam, pump: &PumpBeam, period: Option<Option<u64>>, theta: Option<u64>) {
+  AUTO_CALLS.with(|c| {
+    let mut c = c.borrow_mut();
+    c.0 += 1;
+    if c.0 % stride == 0 && c.1.len() < 400 {
+      c.1.push(AutoCall { cs: cs.clone(), signal: signal.clone(), pump: pump.clone(), period, theta });
+    }
+  });
+}
+fn replay_auto(ctx: &mut Ctx) {
+  let calls = AUTO_CALLS.with(|c| std::mem::take(&mut c.borrow_mut().1));
+  let n = calls.len();
+  let mut order: Vec<usize> = (0..n).collect();
+  for i in (1..n).rev() {
+    let j = ctx.rng.below(i + 1);
+    order.swap(i, j);
+  }
+  for k in order {
+    let c = &calls[k];
+    let what = setup_detail(&c.cs, l_of(&c.pump), l_of(&c.signal), th_of(&c.signal), ph_of(&c.signal));
+    if let Some(first) = c.period {
+      let again = guard(|| optimum_poling_period(&c.signal, &c.pump, &c.cs).ok().map(|p| (*(p / M)).to_bits()));
+      let same = again == Some(first);
+      ctx.s("C04.period", same, if same { "history/period-reproducible" } else { "history/period-depends-on-earlier-calls" }, &format!("{} first={:?} again={:?}", what, first.map(f64::from_bits), again.map(|a| a.map(f64::from_bits))));
+    }
+    if let Some(first) = c.theta {
+      let again = guard(|| (*(c.cs.optimum_theta(&c.signal, &c.pump) / RAD)).to_bits());
+      let same = again == Some(first);
+      ctx.s("C04.theta", same, if same { "history/theta-reproducible" } else { "history/theta-depends-on-earlier-calls" }, &format!("{} first={:e} again={:?}", what, f64::from_bits(first), again.map(f64::from_bits)));
+    }
+  }
+  ctx.count(&format!("history/replayed={}", n));
+}
+
 fn table(log: &[(f64, f64)]) -> String {
   log.iter().map(|(x, y)| format!("{} {}", fl(*x), fl(*y))).collect::<Vec<_>>().join(" ")
 }
@@ -39,6 +100,9 @@ fn period_case(ctx: &mut Ctx, cs: &CrystalSetup, lp: f64, ls: f64, ths: f64, phs
   let z = dkz(&signal, &pump, cs, &PeriodicPoling::Off);
   let collinear = th_of(&signal) == 0.0;
   let r = guard(|| optimum_poling_period(&signal, &pump, cs));
+  if let Some(rr) = &r {
+    record_auto(25, cs, &signal, &pump, Some(rr.as_ref().ok().map(|p| (*(*p / M)).to_bits())), None);
+  }
   let out = match &r {
     None => "PANIC".to_string(),
     Some(Err(_)) => "ERR".to_string(),
@@ -88,27 +152,59 @@ fn period_case(ctx: &mut Ctx, cs: &CrystalSetup, lp: f64, ls: f64, ths: f64, phs
   }
 
   // ---- S: the statement
-  match r {
+  let out = match r {
+    None => PeriodOut::Panic,
+    Some(Err(_)) => PeriodOut::Err,
+    Some(Ok(p)) if (*(p / M)).is_infinite() => PeriodOut::Infinite,
+    Some(Ok(p)) => PeriodOut::Ok(PeriodicPoling::new(p, Apodization::Off)),
+  };
+  judge_period(ctx, "", cs, &signal, &pump, &out, &what);
+}
+
+/// what a route that "returns the optimum poling period" produced
+pub enum PeriodOut {
+  Panic,
+  Err,
+  Infinite,
+  Ok(PeriodicPoling),
+}
+
+/// the statement's clauses on the poling a route returned for `(signal, pump, cs)`; `route` = "" for the free function
+/// `optimum_poling_period` (signatures `period/<clause>`), otherwise signatures `period@<route>/<clause>`
+fn judge_period(ctx: &mut Ctx, route: &str, cs: &CrystalSetup, signal: &SignalBeam, pump: &PumpBeam, out: &PeriodOut, what: &str) {
+  let pre = if route.is_empty() { "period".to_string() } else { format!("period@{}", route) };
+  let len = *(cs.length / M);
+  let (lp, ls) = (l_of(pump), l_of(signal));
+  let z = dkz_indep(signal, pump, cs, &PeriodicPoling::Off);
+  let collinear = th_of(signal) == 0.0;
+  match out {
     // a panic is neither a returned period nor decidably "no period can phase-match": outside the statement's
-    // clauses (it is tied by K: the model panics on the same NaN cost); counted, and described in notes/C04.md
-    None => ctx.count("period/outcome/panic"),
-    Some(Ok(p)) => {
-      let v = *(p / M);
-      if v.is_infinite() {
-        ctx.count("period/outcome/infinite");
-        ctx.s("C04.period", z == 0.0, "period/infinite", &what);
-        return;
-      }
-      ctx.count("period/outcome/ok");
-      let pp = PeriodicPoling::new(p, Apodization::Off);
-      let d = dkz(&signal, &pump, cs, &pp);
+    // clauses (tied by K on the direct route: the model panics on the same NaN cost); counted, see notes/C04.md
+    PeriodOut::Panic => ctx.count(&format!("{}/outcome/panic", pre)),
+    PeriodOut::Infinite => {
+      ctx.count(&format!("{}/outcome/infinite", pre));
+      ctx.s("C04.period", z == 0.0, &format!("{}/infinite", pre), what);
+      return;
+    }
+    PeriodOut::Ok(pp) => {
+      let v = *(pp.signed_period() / M);
+      ctx.count(&format!("{}/outcome/ok", pre));
+      let d = dkz_indep(signal, pump, cs, pp);
       let phase = d.abs() * len / 2.0;
       // a period returned AT the upper bound L is the bound, not an optimum: own signature
       let clamped = v.abs() >= len * (1.0 - 1e-12);
       ctx.s(
         "C04.period",
         phase < 1e-3,
-        if phase < 1e-3 { "period/phasematch" } else if clamped { "period/phasematch/clamped-at-length" } else { "period/phasematch/not-converged" },
+        &(if phase < 1e-3 {
+          format!("{}/phasematch", pre)
+        } else if (v < 0.0) != (z < 0.0) {
+          format!("{}/phasematch/wrong-sign", pre)
+        } else if clamped {
+          format!("{}/phasematch/clamped-at-length", pre)
+        } else {
+          format!("{}/phasematch/not-converged", pre)
+        }),
         &format!(
           "{} period={:e} dkz={:e} half_phase={:e} z_unpoled={:e} over_um={:.4} guess_um={:.4} theta_i_unpoled={:.4} lp_nm={:.3} ls_nm={:.3} li_nm={:.3}",
           what,
@@ -118,29 +214,29 @@ fn period_case(ctx: &mut Ctx, cs: &CrystalSetup, lp: f64, ls: f64, ths: f64, phs
           z,
           (TAU / z.abs() - len) * 1e6,
           TAU / z.abs() * 1e6,
-          th_of(&IdlerBeam::try_new_optimum(&signal, &pump, cs, &PeriodicPoling::Off).unwrap()),
+          th_of(&IdlerBeam::try_new_optimum(signal, pump, cs, &PeriodicPoling::Off).unwrap()),
           lp * 1e9,
           ls * 1e9,
           ls * lp / (ls - lp) * 1e9
         ),
       );
-      ctx.s("C04.period", (v < 0.0) == (z < 0.0), "period/sign", &format!("{} period={:e} z_unpoled={:e}", what, v, z));
-      ctx.s("C04.period", v.abs() <= len, "period/le-length", &format!("{} period={:e}", what, v));
+      ctx.s("C04.period", (v < 0.0) == (z < 0.0), &format!("{}/sign", pre), &format!("{} period={:e} z_unpoled={:e}", what, v, z));
+      ctx.s("C04.period", v.abs() <= len, &format!("{}/le-length", pre), &format!("{} period={:e}", what, v));
       if collinear {
         let want = TAU / z.abs();
         let okc = (v.abs() - want).abs() <= 1e-6 * want;
         ctx.s(
           "C04.period",
           okc,
-          if okc || !clamped { "period/collinear-closed-form" } else { "period/collinear-closed-form/clamped-at-length" },
+          &(if okc || !clamped { format!("{}/collinear-closed-form", pre) } else { format!("{}/collinear-closed-form/clamped-at-length", pre) }),
           &format!("{} period={:e} want={:e} over_um={:.4}", what, v, want, (want - len) * 1e6),
         );
       }
     }
-    Some(Err(_)) => {
-      ctx.count("period/outcome/err");
+    PeriodOut::Err => {
+      ctx.count(&format!("{}/outcome/err", pre));
       if collinear {
-        ctx.count(if TAU / z.abs() > len { "period/err/needed-longer-than-L" } else { "period/err/needed-within-L" });
+        ctx.count(&format!("{}/err/{}", pre, if TAU / z.abs() > len { "needed-longer-than-L" } else { "needed-within-L" }));
       }
     }
   }
@@ -148,15 +244,180 @@ fn period_case(ctx: &mut Ctx, cs: &CrystalSetup, lp: f64, ls: f64, ths: f64, phs
   // is monotone in Λ, its zero 2π/|z| lies beyond L, so the best admissible period is L itself; if even that leaves
   // |Δkz|·L/2 ≥ 1e-3 nothing admissible phase-matches.
   if collinear && TAU / z.abs() > len && (z.abs() - TAU / len).abs() * len / 2.0 >= 1e-3 {
-    ctx.count("period/unmatchable-collinear");
+    ctx.count(&format!("{}/unmatchable-collinear", pre));
     let over = (TAU / z.abs() - len) * 1e6;
-    let ok = matches!(r, Some(Err(_)));
+    let ok = matches!(out, PeriodOut::Err);
     ctx.s(
       "C04.period",
       ok,
-      if ok || over > 1.0001 { "period/err-when-unmatchable" } else { "period/err-when-unmatchable/clamped-at-length" },
+      &(if ok || over > 1.0001 { format!("{}/err-when-unmatchable", pre) } else { format!("{}/err-when-unmatchable/clamped-at-length", pre) }),
       &format!("{} z_unpoled={:e} needed={:e} over_um={:.4}", what, z, TAU / z.abs(), over),
     );
+  }
+}
+
+fn gen_apodization(r: &mut Rng) -> Apodization {
+  match r.below(9) {
+    0 => Apodization::Off,
+    1 => Apodization::Gaussian { fwhm: r.range(0.2e-3, 5e-3) * M },
+    2 => Apodization::Bartlett(r.range(0.3, 2.0)),
+    3 => Apodization::Blackman(r.range(0.3, 2.0)),
+    4 => Apodization::Connes(r.range(0.3, 2.0)),
+    5 => Apodization::Cosine(r.range(0.3, 2.0)),
+    6 => Apodization::Hamming(r.range(0.3, 2.0)),
+    7 => Apodization::Welch(r.range(0.3, 2.0)),
+    _ => Apodization::Interpolate(vec![0.2, 0.7, 1.0, 0.7, 0.2]),
+  }
+}
+
+fn out_of(r: Option<Result<PeriodicPoling, spdcalc::SPDCError>>) -> PeriodOut {
+  match r {
+    None => PeriodOut::Panic,
+    Some(Err(_)) => PeriodOut::Err,
+    Some(Ok(PeriodicPoling::Off)) => PeriodOut::Err, // cannot happen: every route returns On
+    Some(Ok(pp)) => {
+      if (*(pp.signed_period() / M)).is_infinite() {
+        PeriodOut::Infinite
+      } else {
+        PeriodOut::Ok(pp)
+      }
+    }
+  }
+}
+
+fn stored_name(pp: &PeriodicPoling) -> &'static str {
+  match pp {
+    PeriodicPoling::Off => "off",
+    PeriodicPoling::On { sign: Sign::POSITIVE, .. } => "on+",
+    _ => "on-",
+  }
+}
+
+/// every API route that returns "the optimum poling period", each after a history on ONE SPDC object whose poling is
+/// already On with an arbitrary sign / magnitude / apodization (or Off), and whose setup was changed so that the needed
+/// sign flips
+fn period_route_session(ctx: &mut Ctx, spdc0: &SPDC, cr: &[CrystalType]) {
+  let mut crystal = ctx.rng.pick(cr).clone();
+  let (lp0, ls0) = gen_wavelengths(&mut ctx.rng, &crystal);
+  let pm0 = *ctx.rng.pick(&PMS);
+  let mut spdc = spdc0.clone();
+  spdc.crystal_setup = mk_setup(crystal.clone(), pm0, ctx.rng.range(0.0, std::f64::consts::FRAC_PI_2), ctx.rng.range(0.0, TAU), ctx.rng.range(1e-3, 30e-3), ctx.rng.range(0.0, 100.0), false);
+  let ths0 = if ctx.rng.coin() { 0.0 } else { ctx.rng.range(0.0, 0.05) };
+  let (sg, pu) = mk_beams(pm0, lp0, ls0, ths0, ctx.rng.range(0.0, TAU), 100e-6);
+  spdc.signal = sg;
+  spdc.pump = pu;
+  // the poling the object starts with: Off, or a placeholder that is On with either sign
+  spdc.pp = match ctx.rng.below(4) {
+    0 => PeriodicPoling::Off,
+    _ => PeriodicPoling::On {
+      period: ctx.rng.log_range(1e-9, 1.0) * M,
+      sign: if ctx.rng.coin() { Sign::NEGATIVE } else { Sign::POSITIVE },
+      apodization: gen_apodization(&mut ctx.rng),
+    },
+  };
+  match IdlerBeam::try_new_optimum(&spdc.signal, &spdc.pump, &spdc.crystal_setup, &spdc.pp) {
+    Ok(i) => spdc.idler = i,
+    Err(_) => return,
+  }
+  let mut hist = format!("start:{}:{}:{}", crystal, pm0, stored_name(&spdc.pp));
+  for _ in 0..ctx.rng.between(2, 6) {
+    // ---- mutate the object (none = feed the optimum straight back in)
+    match ctx.rng.below(8) {
+      0 => hist.push_str(">none"),
+      1 | 2 => {
+        let pm = *ctx.rng.pick(&PMS);
+        spdc.crystal_setup.pm_type = pm;
+        spdc.signal.set_polarization(pm.signal_polarization());
+        spdc.pump.set_polarization(pm.pump_polarization());
+        hist.push_str(&format!(">pm:{}", pm));
+      }
+      3 | 4 => {
+        spdc.crystal_setup.theta = ctx.rng.range(0.0, std::f64::consts::FRAC_PI_2) * RAD;
+        spdc.crystal_setup.phi = ctx.rng.range(0.0, TAU) * RAD;
+        hist.push_str(">corient");
+      }
+      5 => {
+        crystal = ctx.rng.pick(cr).clone();
+        let (lp, ls) = gen_wavelengths(&mut ctx.rng, &crystal);
+        spdc.crystal_setup.crystal = crystal.clone();
+        spdc.pump.set_vacuum_wavelength(lp * M);
+        spdc.signal.set_vacuum_wavelength(ls * M);
+        hist.push_str(&format!(">crystal:{}", crystal));
+      }
+      6 => {
+        spdc.crystal_setup.temperature = (ctx.rng.range(0.0, 100.0) + 273.15) * K;
+        spdc.crystal_setup.length = ctx.rng.range(1e-3, 30e-3) * M;
+        hist.push_str(">T,L");
+      }
+      _ => {
+        // flip / replace the stored poling by hand
+        spdc.pp = match &spdc.pp {
+          PeriodicPoling::On { period, sign, apodization } => PeriodicPoling::On {
+            period: *period,
+            sign: if *sign == Sign::POSITIVE { Sign::NEGATIVE } else { Sign::POSITIVE },
+            apodization: apodization.clone(),
+          },
+          PeriodicPoling::Off => PeriodicPoling::new(10e-6 * M, gen_apodization(&mut ctx.rng)),
+        };
+        hist.push_str(">pp-flipped");
+      }
+    }
+    let stored = stored_name(&spdc.pp);
+    // ---- one route
+    let route = *ctx.rng.pick(&["PeriodicPoling::try_as_optimum", "PeriodicPoling::try_new_optimum", "assign_optimum_periodic_poling", "with_optimum_periodic_poling", "optimum_periodic_poling", "SPDC::try_as_optimum"]);
+    if route == "SPDC::try_as_optimum" && spdc.pp == PeriodicPoling::Off {
+      continue; // with the poling Off that method optimises the crystal angle instead
+    }
+    let (cs, sg, pu) = (spdc.crystal_setup.clone(), spdc.signal.clone(), spdc.pump.clone());
+    let what = format!(
+      "route={} stored_poling={} history={} {}",
+      route,
+      stored,
+      hist,
+      setup_detail(&cs, l_of(&pu), l_of(&sg), th_of(&sg), ph_of(&sg))
+    );
+    ctx.count(&format!("period-route/{}/from-{}", route, stored));
+    if route == "SPDC::try_as_optimum" {
+      // makes the signal collinear and returns a new object: judge the object it returns
+      match guard(|| spdc.clone().try_as_optimum()) {
+        Some(Ok(s2)) => {
+          let what2 = format!(
+            "route={} stored_poling={} history={} {}",
+            route,
+            stored,
+            hist,
+            setup_detail(&s2.crystal_setup, l_of(&s2.pump), l_of(&s2.signal), th_of(&s2.signal), ph_of(&s2.signal))
+          );
+          judge_period(ctx, route, &s2.crystal_setup, &s2.signal, &s2.pump, &out_of(Some(Ok(s2.pp.clone()))), &what2);
+          spdc = s2;
+        }
+        Some(Err(_)) => {
+          let mut sg0 = sg.clone();
+          sg0.set_angles(0. * RAD, 0. * RAD);
+          judge_period(ctx, route, &cs, &sg0, &pu, &PeriodOut::Err, &what);
+        }
+        None => ctx.count("period@SPDC::try_as_optimum/outcome/panic"),
+      }
+    } else {
+      let r = match route {
+        "PeriodicPoling::try_as_optimum" => guard(|| spdc.pp.clone().try_as_optimum(&sg, &pu, &cs)),
+        "PeriodicPoling::try_new_optimum" => {
+          let ap = spdc.pp.apodization().clone();
+          guard(|| PeriodicPoling::try_new_optimum(&sg, &pu, &cs, ap))
+        }
+        "assign_optimum_periodic_poling" => guard(|| {
+          let mut s2 = spdc.clone();
+          s2.assign_optimum_periodic_poling().map(|_| ()).map(|_| s2.pp.clone())
+        }),
+        "with_optimum_periodic_poling" => guard(|| spdc.clone().with_optimum_periodic_poling().map(|s| s.pp)),
+        _ => guard(|| spdc.optimum_periodic_poling()),
+      };
+      if let Some(Ok(pp)) = &r {
+        spdc.pp = pp.clone();
+      }
+      judge_period(ctx, route, &cs, &sg, &pu, &out_of(r), &what);
+    }
+    hist.push_str(&format!(">{}", route));
   }
 }
 
@@ -167,6 +428,9 @@ fn theta_case(ctx: &mut Ctx, spdc0: &SPDC, cs0: &CrystalSetup, lp: f64, ls: f64,
   ctx.count(&format!("theta/crystal/{}", cs0.crystal));
   ctx.count(&format!("theta/type/{}", cs0.pm_type));
   let r = guard(|| *(cs0.optimum_theta(&signal, &pump) / RAD));
+  if let Some(t) = r {
+    record_auto(12, cs0, &signal, &pump, None, Some(t.to_bits()));
+  }
 
   // ---- K: the closure of optimum_theta rebuilt from the public API, recorded through the real optimiser
   let theta_s_e = signal.theta_external(cs0);
@@ -276,6 +540,13 @@ fn theta_case(ctx: &mut Ctx, spdc0: &SPDC, cs0: &CrystalSetup, lp: f64, ls: f64,
   };
   indep(ctx, "auto", r);
   if routes {
+    // the computed optimum fed back in as the prior crystal angle (to the last bit)
+    if let Some(t) = r {
+      let mut c = cs0.clone();
+      c.theta = t * RAD;
+      let again = guard(|| *(c.optimum_theta(&signal, &pump) / RAD));
+      indep(ctx, "auto-from-its-own-optimum", again);
+    }
     // the other routes that auto-calculate the crystal angle, from the same prior angle
     let ra1 = guard(|| {
       let mut c = cs0.clone();
@@ -463,7 +734,7 @@ pub fn run(ctx: &mut Ctx) {
             let ths2 = if ctx.rng.coin() { 0.0 } else { ths };
             period_case(ctx, &cs2, lp, ls, ths2, phs);
             // edge: the needed period 2π/|z| placed at L + u µm, u ∈ {−0.5, 0.2, 0.7, 1.5} (bisection on the angle)
-            let u = *ctx.rng.pick(&[-0.5e-6, 0.2e-6, 0.7e-6, 1.5e-6]);
+            let u = *ctx.rng.pick(&[-0.5e-6, 0.0, 0.2e-6, 0.7e-6, 1.5e-6]);
             let target = TAU / (length + u);
             let zat = |d: f64| {
               let mut c = cs.clone();
@@ -485,6 +756,13 @@ pub fn run(ctx: &mut Ctx) {
           }
         }
       }
+    }
+  }
+
+  if mode == "all" || mode == "routes" {
+    let nses = if mode == "routes" { ctx.n } else { ctx.n / 15 };
+    for _ in 0..nses {
+      period_route_session(ctx, &spdc0, &cr);
     }
   }
 
@@ -579,5 +857,6 @@ pub fn run(ctx: &mut Ctx) {
       theta_case(ctx, &spdc0, &cs, lp, ls, routes);
     }
   }
+  replay_auto(ctx);
   let _ = S;
 }
